@@ -387,6 +387,17 @@ def _uses(an, x, target):
 
 def e12_length_on_non_string(tree, pts, ins, pick):
     an = spec.Analysis(tree)
+    if pick([0, 1, 2]) == 0:
+        # the length names a (fresh, otherwise unreferenced) length field instead of being a literal
+        c0 = [p for p in _clean(pts) if not p.opt]
+        if c0:
+            p = pick(c0)
+            names = _all_names(p)
+            ln = _fresh(names, "zlen")
+            p.lst.insert(p.idx, {"tag": "length", "name": ln, "type": "char"})
+            p.lst.insert(p.idx + 1, {"tag": "field", "name": _fresh(names | {ln}, "znum"),
+                                     "type": pick(["short", "char", "int", "bool", "blob"]), "length": ln})
+            return "length_field_ref:" + p.decl["kind"] + ":" + p.placement
     c = [i for i in ins if i.ins["tag"] == "field" and i.ins.get("length") is None
          and an.resolve(i.ins["type"])["kind"] != "string"]
     if not c:
@@ -522,15 +533,29 @@ def e15_default_first(tree, pts, ins, pick):
 def e16_unknown_packet_family_action(tree, pts, ins, pick):
     pk = _types(tree, "packet")
     which = pick(["family", "action"])
+    fam_e = next(x for (_, x) in _types(tree, "enum") if x["name"] == "PacketFamily")
+    act_e = next(x for (_, x) in _types(tree, "enum") if x["name"] == "PacketAction")
+    fam_names = {v["name"] for v in fam_e["values"]}
+    act_names = {v["name"] for v in act_e["values"]}
+    # a name that exists - but only in the OTHER enum (packets declared earlier may have used it there)
+    only_other = sorted((fam_names - act_names) if which == "action" else (act_names - fam_names))
+    bad = pick(only_other) if only_other and pick([True, False]) else "NoSuchMember"
+    if pk and pick([True, False]):
+        # append a further packet after the existing ones, so that earlier packets were processed first
+        d, x = pick(pk)
+        pkt = {"kind": "packet", "family": x["family"], "action": x["action"], "body": []}
+        pkt[which] = bad
+        tree["files"][d].append(pkt)
+        return which + ":after_existing@" + d
     if pk and pick([True, False]):
         d, x = pick(pk)
-        x[which] = "NoSuchMember"
+        x[which] = bad
         return which + ":existing@" + d
     d = pick(["net/client", "net/server"])
     fam = next(x for (_, x) in _types(tree, "enum") if x["name"] == "PacketFamily")
     act = next(x for (_, x) in _types(tree, "enum") if x["name"] == "PacketAction")
     pkt = {"kind": "packet", "family": fam["values"][0]["name"], "action": act["values"][0]["name"], "body": []}
-    pkt[which] = "NoSuchMember"
+    pkt[which] = bad
     tree["files"][d].append(pkt)
     return which + ":new@" + d
 
